@@ -111,6 +111,16 @@ func (a *Async) probeInadmissible() {
 		class = "precommit-while-off"
 	case 6: // transaction that was not requested
 		var tx vt.Tx
+		// once the node has answered the proposal of its view (or is its primary, or holds none) it waits for
+		// no transaction at all: one of the proposal's own transactions supplied (again) then is not requested either
+		if (d.ResponseSent() || d.PreCommitSent() || d.CommitSent() || d.IsPrimary() || !d.RequestSentOrReceived()) && len(d.TransactionHashes) > 0 && a.pct("reprop", 50) {
+			if t, ok := w.TxByHash(d.TransactionHashes[a.r("txi", len(d.TransactionHashes))]); ok {
+				tx = t
+				class = "transaction-after-answer"
+				call = func() { n.Transaction(tx) }
+				break
+			}
+		}
 		for tries := 0; ; tries++ {
 			if len(w.Universe) > 0 && a.pct("known", 60) && tries < 3 {
 				tx = w.Universe[a.r("tx", len(w.Universe))]
